@@ -13,5 +13,14 @@ def handle (fn : String) (args : List Json) : String :=
   | "format" => match args with
     | [a0, a1] => (do let x0 ← Wire.decStr a0; let x1 ← Wire.decStr a1; pure (Wire.respondWith Wire.encStr (Gen.iban.format x0 x1)) : Option String).getD "badargs"
     | _ => "badargs"
+  | "is_valid" => match args with
+    | [a0, a1] => (do let x0 ← Wire.decStr a0; let x1 ← Wire.decBool a1; pure (Wire.respondWith Wire.encBool (Gen.iban.is_valid x0 x1)) : Option String).getD "badargs"
+    | _ => "badargs"
+  | "validate" => match args with
+    | [a0, a1] => (do let x0 ← Wire.decStr a0; let x1 ← Wire.decBool a1; pure (Wire.respondWith Wire.encStr (Gen.iban.validate x0 x1)) : Option String).getD "badargs"
+    | _ => "badargs"
+  | "validate__check_country_False" => match args with
+    | [a0] => (do let x0 ← Wire.decStr a0; pure (Wire.respondWith Wire.encStr (Gen.iban.validate__check_country_False x0)) : Option String).getD "badargs"
+    | _ => "badargs"
   | _ => "nofunc"
 end Driver.D_iban
